@@ -401,9 +401,12 @@ fn stag(input: &str) -> IResult<&str, model::Element<'_>> {
 /// [\[15\] Attribute](https://www.w3.org/TR/2009/REC-xml-names-20091208/#NT-Attribute)
 pub fn attribute(input: &str) -> IResult<&str, model::Attribute<'_>> {
     map(
-        tuple((
-            alt((ns_att_name, map(qname, model::AttributeName::from))),
-            preceded(eq, att_value),
+        alt((
+            tuple((ns_att_name, preceded(eq, att_value))),
+            tuple((
+                map(qname, model::AttributeName::from),
+                preceded(eq, att_value),
+            )),
         )),
         model::Attribute::from,
     )(input)
